@@ -21,6 +21,13 @@ def c16_gen(rng, tier):
                 da = 1 if rng.random() < 0.4 else 0
                 out.append("f%d udp=%s tcp=%s name=%s type=%d dl=%d da=%d" % (n, udp, tcp, gens.hx(name), typ, dl, da))
                 n += 1
+        if rep < budget(tier, 2, 6):
+            # a SLOW server: the UDP reply (plain / TC) comes 2.3 - 3.2 s after the query, well inside the 5.5 s deadline;
+            # nothing else arrives on the socket meanwhile (seed C16-M: the socket's idle time-out fired first)
+            for udp, tcp in (("plain", "reply"), ("tc", "reply")):
+                out.append("fs%d udp=%s tcp=%s name=%s type=1 dl=5500 da=0 ud=%d" % (n, udp, tcp, gens.hx(gens.rand_name(rng)),
+                                                                                 rng.choice([2300, 2700, 3200])))
+                n += 1
     return out
 
 
@@ -50,7 +57,7 @@ PROPS["C16"] = dict(
     rule="every (UDP behaviour x TCP behaviour) pair of a scripted fake server listening on UDP+TCP of one "
          "loopback port, random question per case; distinct = distinct case line; all are non-trivial "
          "(each runs a real upstream.NewUpstream exchange)",
-    assumptions=["loopback UDP/TCP delivery; 350 ms deadlines for silent legs"],
+    assumptions=["loopback UDP/TCP delivery; 350 ms deadlines for silent legs; slow-server cases: reply after 2.3 - 3.2 s against a 5.5 s deadline"],
     trusted=["C16: the two legs are oracles (section variables); their own behaviour is C05/C06/C14"],
     level_note="C16: proved for every query, every UDP reply and every outcome of the TCP leg, with both legs as arbitrary "
                "functions (section variables); that the legs are the UDP transport and its sibling TCP transport for the "
